@@ -409,7 +409,7 @@ def jobs_for(prop, tier):
         return [j for j in jobs_option_below(tier) if j[1][3] == 'combinations'] + jobs_combinations(tier)
     if prop == 'C03':
         return jobs_c03(tier) + jobs_option_reduce(tier) + jobs_axis(tier, ('reduce',))
-    return {'C02': jobs_c02, 'C03': jobs_c03, 'C04': jobs_c04, 'C06': (lambda t: jobs_c06(t) + jobs_axis(t, ('sort', 'argsort'))), 'C08': (lambda t: jobs_c08(t) + jobs_numpy(t) + jobs_union(t)), 'C17': jobs_c17, 'C12': jobs_numpy, 'C10': jobs_c10, 'C05': jobs_c05, 'C09': jobs_c09}.get(prop, lambda t: [])(tier)
+    return {'C02': jobs_c02, 'C03': jobs_c03, 'C04': jobs_c04, 'C06': (lambda t: jobs_c06(t) + jobs_axis(t, ('sort', 'argsort'))), 'C08': (lambda t: jobs_c08(t) + jobs_numpy(t) + jobs_union(t) + jobs_reverse_merge(t) + jobs_record_merge(t) + jobs_list_merge(t)), 'C17': jobs_c17, 'C12': jobs_numpy, 'C10': jobs_c10, 'C05': jobs_c05, 'C09': jobs_c09}.get(prop, lambda t: [])(tier)
 
 
 # ------------------------------------------------------------------------------------------------ C01: getitem_next of list nodes
@@ -1273,27 +1273,8 @@ def jobs_simplify(tier):
 
 
 # ------------------------------------------------------------------------------------------------ C08: IndexedArray / IndexedOptionArray mergemany (concatenation of indexed nodes)
-@guard
-def h_indexed_mergemany(specs):
-    """mergemany of indexed / option nodes (what ak.concatenate does along axis 0): the result lists every entry of the first array, then of the
-    second, ...: a missing entry stays missing, a present entry is still the same element of its own content, and the result is option-type
-    as soon as one operand is (no negative index in a non-option result).  specs: ((class, missing pattern), ...), first = receiver"""
-    specs = [(c, tuple(map(bool, p))) for c, p in specs]
-    nc = NodeCtx(['IA', 'BMA', 'BIT', 'UMA', 'IDX', 'CNT', 'UTL', 'KD', 'IDS', 'EA'], [], unwind=max(12, sum(len(p) for c, p in specs) + 2 * len(specs) + 8))
-    BASE = 1 << 32
-    contents, nodes, idxs = [], [], []
-    for k, (cls, pat) in enumerate(specs):
-        if k == 0:
-            cp, clen = nc.content0, nc.lencontent
-        else:
-            clen = nc.m.bv('lencontent%d' % k)
-            nc.m.assume(clen >= 0, clen <= 2 ** 20)
-            kk = z3.BitVec('k!', 64)
-            cp = nc.new_content_in(nc.m.mem, 'content_%d' % k, clen, z3.Lambda([kk], kk + k * BASE), const=True)
-        node, idx = build_indexed(nc, cls, pat, cp, clen, 'node%d' % k)
-        contents.append((cp, clen)); nodes.append(node); idxs.append(idx)
-    nc.m.assume(nc.lencontent <= 2 ** 20)
-
+def install_merge_stub(nc):
+    """opaque contents answer mergemany with a fresh content whose atoms are the operands' atoms, in order"""
     def s_content_mergemany(eng, fr, ins, st, name, argv):
         sret, selfp, vec = argv
         first, finfo = nc.content_info(selfp, st, eng)
@@ -1322,6 +1303,30 @@ def h_indexed_mergemany(specs):
         nc._ret(st, sret, nc.fresh_content(eng, st, z3.simplify(total), z3.Lambda([kk], body), derived='merged'))
         return None
     nc.m.eng.stubs['vf$slot%d' % nc.slot('9mergemanyERKSt6vector')] = s_content_mergemany
+
+
+@guard
+def h_indexed_mergemany(specs):
+    """mergemany of indexed / option nodes (what ak.concatenate does along axis 0): the result lists every entry of the first array, then of the
+    second, ...: a missing entry stays missing, a present entry is still the same element of its own content, and the result is option-type
+    as soon as one operand is (no negative index in a non-option result).  specs: ((class, missing pattern), ...), first = receiver"""
+    specs = [(c, tuple(map(bool, p))) for c, p in specs]
+    nc = NodeCtx(['IA', 'BMA', 'BIT', 'UMA', 'IDX', 'CNT', 'UTL', 'KD', 'IDS', 'EA'], [], unwind=max(12, sum(len(p) for c, p in specs) + 2 * len(specs) + 8))
+    BASE = 1 << 32
+    contents, nodes, idxs = [], [], []
+    for k, (cls, pat) in enumerate(specs):
+        if k == 0:
+            cp, clen = nc.content0, nc.lencontent
+        else:
+            clen = nc.m.bv('lencontent%d' % k)
+            nc.m.assume(clen >= 0, clen <= 2 ** 20)
+            kk = z3.BitVec('k!', 64)
+            cp = nc.new_content_in(nc.m.mem, 'content_%d' % k, clen, z3.Lambda([kk], kk + k * BASE), const=True)
+        node, idx = build_indexed(nc, cls, pat, cp, clen, 'node%d' % k)
+        contents.append((cp, clen)); nodes.append(node); idxs.append(idx)
+    nc.m.assume(nc.lencontent <= 2 ** 20)
+
+    install_merge_stub(nc)
     # others: std::vector<ContentPtr> as a record of (ptr, ctrl) pairs
     cells = {}
     for i, nd in enumerate(nodes[1:]):
@@ -1494,18 +1499,18 @@ def jobs_c02(tier):
 
 
 # ------------------------------------------------------------------------------------------------ C10: RecordArray - positional operations act on every field alike
-def build_record(nc, nfields, length, name='node'):
+def build_record(nc, nfields, length, name='node', tag='', first=True, space=0):
     """RecordArray with `nfields` opaque field contents (each at least `length` long, in its own atom space) and no field names (a tuple)"""
     fo, sz, al, fields = nc.layout_of('REC', '_ZNK7awkward11RecordArray6lengthEv')
     BASE = 1 << 32
     parr, lens = [], []
     for k in range(nfields):
-        if k == 0:
+        if k == 0 and first:
             cp, clen = nc.content0, nc.lencontent
         else:
-            clen = nc.m.bv('lencontent%d' % k)
+            clen = nc.m.bv('lencontent%s%d' % (tag, k))
             kk = z3.BitVec('k!', 64)
-            cp = nc.new_content_in(nc.m.mem, 'content_%d' % k, clen, z3.Lambda([kk], kk + k * BASE), const=True)
+            cp = nc.new_content_in(nc.m.mem, 'content_%s%d' % (tag, k), clen, z3.Lambda([kk], kk + (k + space) * BASE), const=True)
         nc.m.assume(clen >= length, clen <= 2 ** 20)
         parr += [cp, NULL]; lens.append(clen)
     cells = {}
@@ -1518,7 +1523,7 @@ def build_record(nc, nfields, length, name='node'):
                 fo[2]: (Ptr(name + '_contents', 0) if nfields else NULL, 8), fo[2] + 8: (Ptr(name + '_contents', nb) if nfields else NULL, 8), fo[2] + 16: (Ptr(name + '_contents', nb) if nfields else NULL, 8),
                 fo[3]: (NULL, 8), fo[3] + 8: (NULL, 8), fo[4]: (BV(length), 8), fo[5]: (NULL, 8), fo[5] + 8: (NULL, 8), fo[5] + 16: (NULL, 8)})
     this = nc.m.record(name, hdr, const=True)
-    vals = [[Elem(BV(i + k * BASE)) for k in range(nfields)] for i in range(length)]
+    vals = [[Elem(BV(i + (k + space) * BASE)) for k in range(nfields)] for i in range(length)]
     return this, vals, lens
 
 
@@ -2780,3 +2785,203 @@ def h_ellipsis(k, kind):
 
 def jobs_ellipsis(tier):
     return [(h_ellipsis, (k, kind), 1800) for kind in ('ellipsis', 'newaxis') for k in ((0, 1, 2) if tier == 'quick' else (0, 1, 2, 3))]
+
+
+# ------------------------------------------------------------------------------------------------ C08: reverse_merge (a non-indexed array followed by an indexed / option one)
+@guard
+def h_reverse_merge(cls, pat, L):
+    """IndexedArrayOf<T, ISOPTION>::reverse_merge(other): what `other.merge(indexed)` does when the indexed / option array is not the first
+    operand - the result lists every entry of `other`, then every entry of the indexed array; a missing entry stays missing and a present entry
+    is still the same element of its own content, for every index width"""
+    pat = tuple(map(bool, pat))
+    nc = NodeCtx(['IA', 'BMA', 'BIT', 'UMA', 'IDX', 'CNT', 'UTL', 'KD', 'IDS', 'EA'], [], unwind=max(12, len(pat) + 10))
+    BASE = 1 << 32
+    node, idx = build_indexed(nc, cls, pat, nc.content0, nc.lencontent, 'node0')
+    olen = BV(L)
+    nc.m.assume(nc.lencontent <= 2 ** 20)
+    kk = z3.BitVec('k!', 64)
+    other = nc.new_content_in(nc.m.mem, 'content_other', olen, z3.Lambda([kk], kk + BASE), const=True)
+    install_merge_stub(nc)
+    otherp = nc.m.record('otherptr', {0: (other, 8), 8: (NULL, 8)}, const=True)
+    nc.m.record('ret', {})
+    mangled, bits, T, option = INDEXED[cls]
+    cands = [f for mod_ in nc.m.eng.mods for f in mod_.func_src if f.startswith('_ZNK7awkward14IndexedArrayOfI%sLb%dEE13reverse_mergeE' % (T, 1 if option else 0))]
+    if not cands:
+        raise Unsupported('reverse_merge not found in the IR')
+    out = nc.m.call(cands[0], [Ptr('ret', 0), node, otherp])
+    obls = [('reverse_merge does not raise', out.raised)]
+    want = [Elem(BV(j) + BASE) for j in range(L)] + [NONE if miss else Elem(idx[i]) for i, miss in enumerate(pat)]
+    retp = nc.m.cell('ret', 0) if 0 in out.mem.o['ret'].cells else None
+    if retp is not None:
+        for g, res in nodeh.decode_cases(nc, out.mem, retp):
+            if res is None:
+                obls.append(('a result is returned', z3.And(g, z3.Not(out.raised))))
+                continue
+            obls += [(nm, z3.And(g, c)) for nm, c in compare(value(res), want)]
+            if res['cls'] == 'indexed':
+                for i, t in enumerate(res.get('index', [])):
+                    obls.append(('a non-option result has no negative index (entry %d)' % i, z3.And(g, t < 0)))
+
+    def replay(model, ent):
+        ev = lambda t: model.eval(t, model_completion=True).as_signed_long()
+        tok = {'IndexedArray32': 'indexed32', 'IndexedArrayU32': 'indexedU32', 'IndexedArray64': 'indexed64', 'IndexedOptionArray32': 'option32', 'IndexedOptionArray64': 'option64'}
+        iv = [ev(x) for x in idx]
+        lc = max([ev(nc.lencontent), 1] + [v + 1 for v in iv])
+        if lc > 100:
+            return False, 'content too long to replay', {}
+        prog = 'i64 %s i64 %s %s %s merge' % (fullnative.ints([5000 + j for j in range(L)]), fullnative.ints(list(range(lc))), tok[cls], fullnative.ints(iv))
+        exp = [5000 + j for j in range(L)] + [None if v < 0 else v for v in iv]
+        return akrun_check(prog, exp, 'NumpyArray of %d items merged with %s%s' % (L, cls, iv))
+    return mdischarge(nc.m, '%s[%s]::reverse_merge after %d items' % (cls, ''.join('N' if x else 'v' for x in pat), L), obls, [], replay=replay,
+                      prefer=[nc.lencontent <= 6], extra=dict(bounds='other of concrete length (opaque); missing pattern concrete (case split), index values and content length symbolic'))
+
+
+def jobs_reverse_merge(tier):
+    A = [('IndexedOptionArray64', (0, 1)), ('IndexedArray64', (0, 0)), ('IndexedOptionArray32', (1, 0, 0)), ('IndexedArray32', (0,)), ('IndexedArrayU32', (0, 0))]
+    return [(h_reverse_merge, a + (L,), 1800) for a in A for L in ((2,) if tier == 'quick' else (0, 1, 3))]
+
+
+@guard
+def h_record_mergemany(nfields, la, lb):
+    """RecordArray::mergemany of two tuples with the same number of fields: the result has the records of the first (exactly `length` of them, even
+    when its field contents are longer) followed by the records of the second, field by field"""
+    nc = NodeCtx(['REC', 'IA', 'IDX', 'CNT', 'UTL', 'KD', 'IDS', 'EA'], [], unwind=max(14, 4 * nfields + la + lb + 10))
+    a, va, lensa = build_record(nc, nfields, la, name='node')
+    b, vb, lensb = build_record(nc, nfields, lb, name='nodeb', tag='b', first=False, space=16)
+    install_merge_stub(nc)
+    nc.m.record('othersbuf', {0: (b, 8), 8: (NULL, 8)}, const=True)
+    others = nc.m.record('others', {0: (Ptr('othersbuf', 0), 8), 8: (Ptr('othersbuf', 16), 8), 16: (Ptr('othersbuf', 16), 8)}, const=True)
+    nc.m.record('ret', {})
+    out = nc.m.call('_ZNK7awkward11RecordArray9mergemanyERKSt6vectorISt10shared_ptrINS_7ContentEESaIS4_EE', [Ptr('ret', 0), a, others])
+    obls = [('mergemany does not raise', out.raised)]
+    want = va + vb
+    for g, res in nodeh.decode_cases(nc, out.mem, nc.m.cell('ret', 0)):
+        if res is None:
+            obls.append(('a result is returned', z3.And(g, z3.Not(out.raised))))
+            continue
+        if res['cls'] != 'record' or len(res['contents']) != nfields:
+            obls.append(('the result is a record array with the same fields', g))
+            continue
+        obls.append(('the result has as many records as both operands together', z3.And(g, res['length'] != la + lb)))
+        for i in range(la + lb):
+            for k in range(nfields):
+                obls += [(nm, z3.And(g, c)) for nm, c in compare(nodeh.at(res['contents'][k], i), want[i][k], 'record %d field %d' % (i, k))]
+
+    def replay(model, ent):
+        ev = lambda t: model.eval(t, model_completion=True).as_signed_long()
+        prog, exp = '', []
+        for tagk, (L, lens) in enumerate(((la, lensa), (lb, lensb))):
+            ls = [min(ev(x), L + 3) for x in lens]
+            for k, n in enumerate(ls):
+                prog += 'i64 %s ' % fullnative.ints([1000 * tagk + 100 * k + j for j in range(n)])
+            prog += 'tuple %d %d ' % (nfields, L)
+            exp += [{str(k): 1000 * tagk + 100 * k + j for k in range(nfields)} for j in range(L)]
+        prog += 'merge'
+        return akrun_check(prog, exp, 'merge of two %d-field tuples of %d and %d records (field contents of the first %s long)' % (nfields, la, lb, [min(ev(x), la + 3) for x in lensa]))
+    return mdischarge(nc.m, 'RecordArray::mergemany %d fields, %d + %d records' % (nfields, la, lb), obls, [('first record array has longer field contents than records', lensa[0] > la)] if nfields else [],
+                      replay=replay, prefer=[x <= la + 2 for x in lensa] + [x <= lb + 2 for x in lensb],
+                      extra=dict(bounds='%d fields; %d and %d records (case split); field content lengths symbolic (>= number of records)' % (nfields, la, lb)))
+
+
+def jobs_record_merge(tier):
+    return [(h_record_mergemany, a, 1800) for a in ([(1, 2, 1), (2, 1, 2), (0, 2, 1)] if tier == 'quick' else [(1, 0, 2), (2, 2, 2), (3, 1, 1), (2, 3, 0), (0, 0, 3)])]
+
+
+# ------------------------------------------------------------------------------------------------ C08: mergemany of list nodes
+def _build_list_operand(nc, k, cls, dims):
+    """list node number k over its own opaque content (atoms k * 2^32 + position)"""
+    BASE = 1 << 32
+    if k == 0:
+        cp, clen = nc.content0, nc.lencontent
+    else:
+        clen = nc.m.bv('lencontent%d' % k)
+        nc.m.assume(clen >= 0, clen <= 2 ** 20)
+        kk = z3.BitVec('k!', 64)
+        cp = nc.new_content_in(nc.m.mem, 'content_%d' % k, clen, z3.Lambda([kk], kk + k * BASE), const=True)
+    saved = nc.content0, nc.lencontent
+    nc.content0, nc.lencontent = cp, clen
+    try:
+        name = 'node%d' % k
+        if cls == 'ListOffsetArray64':
+            this, lists, offs = build_listoffset64(nc, list(dims), name=name)
+            info = dict(cls=cls, offs=offs, lens=list(dims))
+        elif cls == 'ListArray64':
+            this, lists, starts = build_list64(nc, list(dims), name=name)
+            info = dict(cls=cls, starts=starts, lens=list(dims))
+        else:
+            this, lists = build_regular(nc, dims[0], dims[1], name=name)
+            info = dict(cls=cls, size=dims[0], length=dims[1])
+    finally:
+        nc.content0, nc.lencontent = saved
+    lists = [[Elem(z3.simplify(e.val + k * BASE)) for e in lst] for lst in lists]
+    info['lencontent'] = clen
+    return this, lists, info
+
+
+@guard
+def h_list_mergemany(specs):
+    """mergemany of list nodes (ListOffsetArray64 / ListArray64 / RegularArray in any mix; what ak.concatenate does along axis 0 for lists): the
+    result holds the lists of the first operand, then of the second, ... - each still with its own elements in order - whatever the offsets
+    origin, the gaps / order of starts, or unreachable content beyond the last list.  specs: ((class, dims), ...), first = receiver"""
+    nlists = sum(len(d) if c != 'RegularArray' else d[1] for c, d in specs)
+    nelem = sum(sum(d) if c != 'RegularArray' else d[0] * d[1] for c, d in specs)
+    nc = NodeCtx(['LOA', 'LA', 'RA', 'IA', 'IDX', 'CNT', 'UTL', 'KD', 'IDS', 'EA'], [], unwind=max(14, nlists + nelem + 2 * len(specs) + 10))
+    nodes, want, infos = [], [], []
+    for k, (cls, dims) in enumerate(specs):
+        this, lists, info = _build_list_operand(nc, k, cls, dims)
+        nodes.append(this); want += lists; infos.append(info)
+    nc.m.assume(nc.lencontent <= 2 ** 20)
+    install_merge_stub(nc)
+    cells = {}
+    for i, nd in enumerate(nodes[1:]):
+        cells[16 * i] = (nd, 8); cells[16 * i + 8] = (NULL, 8)
+    nc.m.record('othersbuf', cells, const=True)
+    nb = 16 * (len(nodes) - 1)
+    others = nc.m.record('others', {0: (Ptr('othersbuf', 0), 8), 8: (Ptr('othersbuf', nb), 8), 16: (Ptr('othersbuf', nb), 8)}, const=True)
+    nc.m.record('ret', {})
+    short = {'ListOffsetArray64': '17ListOffsetArrayOfIlE', 'ListArray64': '11ListArrayOfIlE', 'RegularArray': '12RegularArray'}[specs[0][0]]
+    cands = [f for mod_ in nc.m.eng.mods for f in mod_.func_src if f.startswith('_ZNK7awkward%s9mergemanyE' % short)]
+    if not cands:
+        raise Unsupported('mergemany not found in the IR')
+    out = nc.m.call(cands[0], [Ptr('ret', 0), nodes[0], others])
+    obls = [('mergemany does not raise', out.raised)]
+    for g, res in nodeh.decode_cases(nc, out.mem, nc.m.cell('ret', 0)):
+        if res is None:
+            obls.append(('a result is returned', z3.And(g, z3.Not(out.raised))))
+            continue
+        obls += [(nm, z3.And(g, c)) for nm, c in compare(value(res), want)]
+
+    def replay(model, ent):
+        ev = lambda t: model.eval(t, model_completion=True).as_signed_long()
+        prog, exp = '', []
+        for k, ((cls, dims), info) in enumerate(zip(specs, infos)):
+            lc = ev(info['lencontent'])
+            if lc > 60:
+                return False, 'content too long to replay', {}
+            vals = [1000 * k + j for j in range(lc)]
+            prog += 'i64 %s ' % fullnative.ints(vals)
+            if cls == 'ListOffsetArray64':
+                o = [ev(x) for x in info['offs']]
+                prog += 'listoffset64 %s ' % fullnative.ints(o)
+                exp += [vals[o[i]:o[i + 1]] for i in range(len(o) - 1)]
+            elif cls == 'ListArray64':
+                s = [ev(x) for x in info['starts']]
+                e = [a + L for a, L in zip(s, info['lens'])]
+                prog += 'list64 %d %s %s ' % (len(s), ' '.join(map(str, s)), ' '.join(map(str, e)))
+                exp += [vals[a:b] for a, b in zip(s, e)]
+            else:
+                prog += 'regular %d %d ' % (info['size'], info['length'])
+                exp += [vals[i * info['size']:(i + 1) * info['size']] for i in range(info['length'])]
+        prog += 'mergemany %d' % (len(specs) - 1)
+        return akrun_check(prog, exp, 'mergemany of %s' % (list(specs),))
+    return mdischarge(nc.m, 'mergemany %s' % ' + '.join('%s%s' % (c, list(d)) for c, d in specs), obls, [], replay=replay,
+                      prefer=[i['lencontent'] <= 10 for i in infos] + [x <= 4 for i in infos for x in i.get('offs', [])[:1] + i.get('starts', [])],
+                      extra=dict(bounds='%d operands, list lengths concrete (case split); offsets origins, starts and content lengths symbolic' % len(specs)))
+
+
+def jobs_list_merge(tier):
+    LO, LA, RA = 'ListOffsetArray64', 'ListArray64', 'RegularArray'
+    q = [((LO, (1, 2)), (LA, (2, 0))), ((LA, (2, 1)), (RA, (2, 2)), (LO, (1,))), ((RA, (2, 1)), (RA, (2, 2))), ((RA, (1, 2)), (LO, (0, 2)), (LA, (1,))), ((LO, (2,)), (RA, (0, 2)), (LA, (1,)))]
+    if tier != 'quick':
+        q += [((LA, (1, 0, 2)), (LA, (2,)), (LO, (1, 1))), ((LO, (0,)), (RA, (3, 1)), (RA, (1, 2))), ((RA, (2, 2)), (LA, (0, 3)), (RA, (2, 1)))]
+    return [(h_list_mergemany, (s,), 1800) for s in q]
